@@ -1,14 +1,27 @@
 #!/usr/bin/env python3
-"""tools/seed_recheck.py [id ...] — re-run every claimed check against each kept seeded change (scratch copy of /repo + patch) and update meta.json"""
+"""tools/seed_recheck.py [-jN] [id ...] — re-run every claimed check against each kept seeded change (scratch copy of /repo + patch) and update meta.json"""
 import json, os, shutil, subprocess, sys, tempfile
+from concurrent.futures import ThreadPoolExecutor
 ROOT = '/verif'
-ids = sys.argv[1:] or sorted(i for i in os.listdir(os.path.join(ROOT, 'seeded')) if not i.startswith('_'))
+args = sys.argv[1:]
+jobs = 1
+if args and args[0].startswith('-j'):
+    jobs = int(args[0][2:]); args = args[1:]
+RUN_ROOT = ROOT
+if args and args[0] == '--snapshot':
+    # run the checks from a frozen copy of /verif so that the templates can be edited meanwhile; results are still written to /verif/seeded
+    args = args[1:]
+    RUN_ROOT = '/tmp/verif_snapshot'
+    shutil.rmtree(RUN_ROOT, ignore_errors=True)
+    subprocess.run('rsync -a --exclude .git --exclude gen --exclude replays --exclude evidence %s/ %s/' % (ROOT, RUN_ROOT), shell=True, check=True)
+ids = args or sorted(i for i in os.listdir(os.path.join(ROOT, 'seeded')) if not i.startswith('_'))
 claimed = [c['property_id'] for c in json.load(open(os.path.join(ROOT, 'MANIFEST.json')))['checks']]
-rows = []
-for sid in ids:
+
+
+def one(sid):
     d0 = os.path.join(ROOT, 'seeded', sid)
     if not os.path.exists(os.path.join(d0, 'patch.diff')):
-        continue
+        return
     meta = json.load(open(os.path.join(d0, 'meta.json')))
     d = tempfile.mkdtemp(prefix='vseed.')
     subprocess.run('git ls-files | rsync -a --files-from=- . %s/' % d, shell=True, cwd='/repo', check=True)
@@ -16,17 +29,21 @@ for sid in ids:
     if p.returncode != 0:
         print(sid, 'PATCH DOES NOT APPLY', p.stdout, p.stderr)
         shutil.rmtree(d)
-        continue
+        return
     res = {}
-    env = dict(os.environ, VERIF_REPO=d, VERIF_EVIDENCE_DIR='/tmp/vseed_evidence')
+    env = dict(os.environ, VERIF_REPO=d, VERIF_EVIDENCE_DIR='/tmp/vseed_evidence_' + sid)
     for pr in claimed:
-        q = subprocess.run(['./check', pr], cwd=ROOT, env=env, capture_output=True, text=True)
+        q = subprocess.run(['./check', pr], cwd=RUN_ROOT, env=env, capture_output=True, text=True)
         res[pr] = dict(exit=q.returncode, lines=[l for l in q.stdout.split('\n') if l.startswith('VIOLATION') or l.startswith('UNDECIDED')][:6])
     shutil.rmtree(d)
+    shutil.rmtree('/tmp/vseed_evidence_' + sid, ignore_errors=True)
     meta['checks'] = res
     meta['detected_by'] = [p_ for p_, r in res.items() if r['exit'] == 1]
     meta['undecided_in'] = [p_ for p_, r in res.items() if r['exit'] == 2]
     meta['detected_for_target'] = res.get(meta['breaks_property'], {}).get('exit') == 1
     json.dump(meta, open(os.path.join(d0, 'meta.json'), 'w'), indent=1)
-    rows.append((sid, meta.get('confirmed'), meta['detected_for_target'], meta['detected_by'], meta['undecided_in']))
-    print(sid, 'confirmed=%s' % meta.get('confirmed'), 'target=%s' % meta['detected_for_target'], 'by=%s' % meta['detected_by'], 'undecided=%s' % meta['undecided_in'])
+    print(sid, 'confirmed=%s' % meta.get('confirmed'), 'target=%s' % meta['detected_for_target'], 'by=%s' % meta['detected_by'], 'undecided=%s' % meta['undecided_in'], flush=True)
+
+
+with ThreadPoolExecutor(max_workers=jobs) as ex:
+    list(ex.map(one, ids))
